@@ -768,8 +768,15 @@ def _code_names_and_constants(code) -> Tuple[List[str], List[str]]:
         elif c is not None:
             constants.append(repr(c))
 
+    # Inside a class body `__x` is compiled as `_Class__x`. The class is one of the scopes the
+    # code was defined in, when python tells us (the class name may itself contain `__`).
+    scopes = getattr(code, "co_qualname", "").split(".")
+    prefixes = ["_" + scope.lstrip("_") for scope in scopes if scope.lstrip("_").isidentifier()]
+
     def plain(n: str) -> str:
-        # Inside a class body `__x` is compiled as `_Class__x`.
+        for prefix in prefixes:
+            if n.startswith(prefix + "__"):
+                return n[len(prefix) :]
         return n[n.index("__") :] if n.startswith("_") and not n.startswith("__") and "__" in n else n
 
     return sorted({plain(n) for n in names}), sorted(constants)
